@@ -30,6 +30,99 @@ def setup():
     return 2 if bad else 0
 
 
+def selftest():
+    """Demonstrate the binding (DESIGN 4.6): a recorded execution is accepted as it is and rejected once a
+    single recorded field is altered or a single hook's event is dropped; a header byte altered in a
+    recorded file is rejected by Format.tla; an expectation altered in a case table makes the engine
+    report the (correct) code.  Exit 0 iff every corruption is noticed."""
+    ok = True
+    tr = os.path.join(scratch(), "self.ndjson")
+    r = run_vh(["seq", "-seed", "5", "-hists", "6", "-ops", "30", "-trace", tr])
+    if not (r.get("trace") or {}).get("lines"):
+        raise Machinery("selftest: no trace recorded")
+    tv = validate_trace(tr)
+    log(f"[self] untouched trace: {'accepted' if tv.get('accepted') else 'REJECTED ' + str(tv.get('reject'))}")
+    ok &= bool(tv.get("accepted"))
+    lines = open(tr).read().splitlines()
+
+    def variant(name, edit):
+        nonlocal ok
+        out = list(lines)
+        if not edit(out):
+            raise Machinery(f"selftest: no line to corrupt for {name}")
+        path = os.path.join(scratch(), f"self-{name}.ndjson")
+        open(path, "w").write("\n".join(out) + "\n")
+        t = validate_trace(path)
+        rej = t.get("reject")
+        log(f"[self] {name}: {'rejected at ' + str(rej) if rej else 'ACCEPTED (binding broken)'}")
+        ok &= bool(rej)
+
+    def bump_size(out):
+        for i, l in enumerate(out):
+            d = json.loads(l)
+            if d.get("ev") == "Reserve" and d.get("size", 0) > 0 and d.get("code", 0) == 0:
+                d["size"] += 4096
+                out[i] = json.dumps(d)
+                return True
+        return False
+
+    def drop_event(evname):
+        def f(out):
+            for i, l in enumerate(out):
+                if json.loads(l).get("ev") == evname and i > 5:
+                    del out[i]
+                    return True
+            return False
+        return f
+
+    def flip_key(out):
+        for i, l in enumerate(out):
+            d = json.loads(l)
+            if d.get("ev") == "Add" and d.get("key"):
+                d["key"] = d["key"][:-1] + ("0" if d["key"][-1] != "0" else "1")
+                out[i] = json.dumps(d)
+                return True
+        return False
+
+    variant("reserved size +4096 in one Reserve event", bump_size)
+    variant("one Unreserve event dropped (hook removed)", drop_event("Unreserve"))
+    variant("one FileRemove event dropped (hook removed)", drop_event("FileRemove"))
+    variant("key of one Add event altered", flip_key)
+    # Format: one byte of a recorded header
+    names = os.path.join(scratch(), "self-names.json")
+    rr = run_tlc("Format.tla", "Format.cfg", env={"VERIF_CASES_OUT": names}, workers=2, timeout=300)
+    prep = tempfile.mkdtemp(prefix="self-prep-", dir=scratch())
+    run_vh(["format", "-phase", "prep", "-prep", prep, "-tier", "quick", "-seed", "3"])
+    headers = os.path.join(scratch(), "self-headers.json")
+    run_tlc("Format.tla", "Format_render.cfg", env={"VERIF_PARAMS_IN": os.path.join(prep, "params.ndjson"), "VERIF_HEADERS_OUT": headers}, timeout=300)
+    record = os.path.join(scratch(), "self-written.ndjson")
+    run_vh(["format", "-phase", "run", "-prep", prep, "-headers", headers, "-names", names, "-record", record, "-tier", "quick", "-seed", "3"])
+    recs = [json.loads(l) for l in open(record)]
+    r3 = run_tlc("Format.tla", "Format_validate.cfg", env={"VERIF_TRACE_FILE": record}, timeout=300)
+    log(f"[self] recorded headers untouched: {'accepted' if r3.ok else 'REJECTED'}")
+    ok &= r3.ok
+    recs[0]["head"][17] ^= 1   # chunk size field
+    bad = os.path.join(scratch(), "self-written-bad.ndjson")
+    open(bad, "w").write("\n".join(json.dumps(x) for x in recs) + "\n")
+    r4 = run_tlc("Format.tla", "Format_validate.cfg", env={"VERIF_TRACE_FILE": bad}, timeout=300)
+    log(f"[self] one bit of a recorded header altered: {'rejected ' + str(r4.reject) if r4.reject else 'ACCEPTED (binding broken)'}")
+    ok &= bool(r4.reject)
+    # case table: an altered expectation must make the engine disagree with the (correct) code
+    out = os.path.join(scratch(), "self-limits.json")
+    run_tlc("Limits.tla", "Limits.cfg", env={"VERIF_CASES_OUT": out}, timeout=300)
+    tab = json.load(open(out))
+    for row in tab:
+        if row["path"] == "Contains" and row["relation"] == "above":
+            row["positive"] = True
+    json.dump(tab, open(out, "w"))
+    r5 = run_vh(["limits", "-cases", out, "-seed", "1"])
+    n = len(r5.get("violations", []))
+    log(f"[self] one expectation of the Limits table altered: engine reports {n} disagreement(s){'' if n else ' (binding broken)'}")
+    ok &= n > 0
+    log(f"[self] {'binding demonstrated' if ok else 'BINDING SELF-TEST FAILED'}")
+    return 0 if ok else 2
+
+
 def replay(prop, path):
     """Re-execute a replay file written by a failing check."""
     doc = json.load(open(path))
